@@ -111,6 +111,24 @@ def corpus():
              default=True, start=0, switches=[]),
         _arr(2, [_call(0, 'tA', [['status', 599], ['see'], ['call', _call(1, 'tB', [['status', '599 Custom'], ['see']])],
                                  ['status', 599], ['see']])]),
+        # (c) a request whose body was read is copied and forwarded; the other application's hook replaces the input of
+        #     ITS request; the first application reads its body and forms again
+        _arr(2, [_call(0, 'tA', [['form_see'], ['call_copy', 1, [['see']], {'hook_input': True}], ['see'], ['form_see']],
+                       method='POST', form='f=tAf&g=tAg')]),
+        _arr(2, [_call(1, 'tA', [['body_read'], ['call_copy', 0, [], {'hook_input': True}], ['body_read'], ['see']],
+                       method='POST', form='f=tAf')], default=True),
+        # (d) an application built with its own configuration (before, or while another one serves) leaves the
+        #     error answers and limits of the others alone
+        dict(_arr(2, [_call(0, 'tA', [['see'], ['new_app', 'errors_map422'], ['see'],
+                                      ['call', _call(1, 'tB', [['body_read']], method='POST', form='{"tB": bad',
+                                                     json_bad=True)], ['see'], ['body_read']],
+                            method='POST', form='["tA"]', json_nonobj=True, accept='application/json')]), max_body=30),
+        dict(_arr(2, [dict(construct=True, cfg='errors_map_size'),
+                      _call(1, 'tC', [['see'], ['body_read']], method='POST', form='f=tCf' + 'y' * 40, too_big=True)],
+                  default=True, start=0, switches=[]), max_body=30),
+        dict(_arr(2, [dict(construct=True, cfg='max_body5'),
+                      _call(0, 'tC', [['form_see'], ['see']], method='POST', form='f=tCf&g=tCg')],
+                  start=0, switches=[]), max_body=30),
         # redirect() works for the default application ...
         _arr(2, [_call(0, 'tA', [['see'], ['redirect', '?to=tA']])], default=True),
         # ... and (finding C10-redirect-default-app) reads the default application's request from any other one
@@ -179,6 +197,7 @@ def _gen_ops(rng, malformed):
     return _ops(cmds)
 
 
+CFG_KINDS = ['errors_map422', 'errors_map_size', 'max_body5', 'memfile7']
 UNLISTED = [299, 599, 797, 798, 796, 720, 731, 742, 753, 764]
 
 
@@ -233,13 +252,20 @@ def _gen_script(rng, tok, napps, depth, counter, busy=(), default=False):
         elif r < 0.80 and depth < 2 and free:
             # a copy of this request handed to another application (nested call on the copy's environ)
             j = rng.choice(free)
-            script.append(['call_copy', j, [['see']] * rng.randrange(0, 2) + [['hdr', 'X-B', tok + 'cch']] * rng.randrange(0, 2)])
+            if rng.random() < 0.6:
+                script.append(['form_see'])       # this request's body is read (and buffered) before it is copied
+            cc = ['call_copy', j, [['see']] * rng.randrange(0, 2) + [['hdr', 'X-B', tok + 'cch']] * rng.randrange(0, 2)]
+            if rng.random() < 0.5:
+                cc.append({'hook_input': True})   # the other application's hook gives ITS request a new input stream
+            script.append(cc)
             script.append(['see'])
+            if rng.random() < 0.7:
+                script.append(['form_see'])
         elif r < 0.86:
             script.append(['copy'])
             script.append(['see'])
         elif r < 0.93:
-            script.append(['new_app'])
+            script.append(['new_app'] + ([rng.choice(CFG_KINDS)] if rng.random() < 0.6 else []))
             script.append(['see'])
         else:
             script.append(['form_see'])
@@ -263,8 +289,8 @@ def _gen_arr(rng):
     default = rng.random() < 0.5
     calls = []
     for i in range(nthreads):
-        if nthreads > 1 and rng.random() < 0.12:
-            calls.append(dict(construct=True))
+        if nthreads > 1 and rng.random() < 0.15:
+            calls.append(dict(construct=True, cfg=rng.choice(CFG_KINDS)) if rng.random() < 0.6 else dict(construct=True))
             continue
         tok = 't%s' % 'ACE'[i]
         kw = {}
@@ -276,6 +302,8 @@ def _gen_arr(rng):
             kw['readonly'] = True         # the (legal) 'ombott.request.readonly' flag in the environ
         j = rng.randrange(napps)
         script = _gen_script(rng, tok, napps, 0, [0], (j,), default)
+        if kw.get('readonly'):
+            script = [a[:3] if a[0] == 'call_copy' else a for a in script]    # no input replacement on a read-only environ
         if rng.random() < 0.2:
             kw = _body_kw(rng, tok, j, default)
             script = _end_in_body_error(script)
